@@ -310,6 +310,7 @@ func (H) Execute(scAny any, cfg simrt.Config, st *core.Stats) (*simrt.Outcome, *
 	}
 	reg := newRegister(sc.Kind)
 	hist := make([][]rec, len(sc.Clients)+1)
+	cfg.StopWhenClientsDone = true // goroutines of the implementation itself (none on the pinned tree) do not keep a run alive
 	s := simrt.New(cfg)
 	s.Go(func() {
 		var wg ssync.WaitGroup
@@ -341,7 +342,7 @@ func (H) Execute(scAny any, cfg simrt.Config, st *core.Stats) (*simrt.Outcome, *
 	if out.Truncated {
 		return out, core.NoProgress(out)
 	}
-	if out.Stuck {
+	if core.Deadlocked(out) {
 		return out, &core.Violation{Signature: "deadlock", Detail: fmt.Sprint(out.StuckTasks)}
 	}
 	var ops []porcupine.Operation
@@ -429,6 +430,7 @@ func execPool(sc *Scenario, cfg simrt.Config, st *core.Stats) (*simrt.Outcome, *
 		// id space, so the harness shares no counter between tasks
 		pool.New = func() *token { return &token{} }
 	}
+	cfg.StopWhenClientsDone = true // goroutines of the implementation itself (none on the pinned tree) do not keep a run alive
 	s := simrt.New(cfg)
 	s.Go(func() {
 		for i := 0; i < sc.Preput; i++ {
@@ -496,7 +498,7 @@ func execPool(sc *Scenario, cfg simrt.Config, st *core.Stats) (*simrt.Outcome, *
 	if out.Truncated {
 		return out, core.NoProgress(out)
 	}
-	if out.Stuck {
+	if core.Deadlocked(out) {
 		return out, &core.Violation{Signature: "deadlock", Detail: fmt.Sprint(out.StuckTasks)}
 	}
 	if viol != "" {
@@ -532,6 +534,7 @@ func execPoolVal(sc *Scenario, cfg simrt.Config, st *core.Stats) (*simrt.Outcome
 	if sc.WithNew {
 		pool.New = func() tokVal { return tokVal{} }
 	}
+	cfg.StopWhenClientsDone = true // goroutines of the implementation itself (none on the pinned tree) do not keep a run alive
 	s := simrt.New(cfg)
 	s.Go(func() {
 		for i := 0; i < sc.Preput; i++ {
@@ -589,7 +592,7 @@ func execPoolVal(sc *Scenario, cfg simrt.Config, st *core.Stats) (*simrt.Outcome
 	if out.Truncated {
 		return out, core.NoProgress(out)
 	}
-	if out.Stuck {
+	if core.Deadlocked(out) {
 		return out, &core.Violation{Signature: "deadlock", Detail: fmt.Sprint(out.StuckTasks)}
 	}
 	if viol != "" {
